@@ -237,47 +237,60 @@ Proof. reflexivity. Qed.
 Lemma add_ok_mono : forall c e, sqlite_add_ok false c = true -> sqlite_add_ok e c = true.
 Proof.
   intros c e H. unfold sqlite_add_ok in *.
-  apply andb_true_iff in H; destruct H as [H H4]. apply andb_true_iff in H; destruct H as [H H3].
+  apply andb_true_iff in H; destruct H as [H H3].
   apply andb_true_iff in H; destruct H as [H1 H2].
-  rewrite H1, H3, H4. rewrite orb_false_r in H2. rewrite H2. reflexivity.
+  rewrite H1, H3. rewrite orb_false_r in H2. rewrite H2. reflexivity.
 Qed.
+Lemma add_ok_type : forall c e, sqlite_add_ok e c = true -> sqlite_type_ok (c_kind c) = true.
+Proof. intros c e H. unfold sqlite_add_ok in H. apply andb_true_iff in H. tauto. Qed.
 
 Definition cells_kept (t t' : table) (x : str) : Prop :=
   map (fun r => cell (t_cols t') r x) (t_rows t') = map (fun r => cell (t_cols t) r x) (t_rows t).
 
-(* One accepted step keeps class and table in step, does not fail, and keeps
-   the cells of every column that is still there. *)
-Theorem evo_step_ok : forall s op t, evo_wf s -> op_ok op = true -> the_table s = Some t ->
-  snd (evo_step s op) = false
-  /\ evo_wf (fst (evo_step s op))
+(* One step -- any addColumn or delColumn, accepted by the engine or not -- keeps class and
+   table in step and keeps the cells of every column that is still there; it does not fail
+   when the engine accepts the op. *)
+Theorem evo_step_ok : forall s op t, evo_wf s -> the_table s = Some t ->
+  evo_wf (fst (evo_step s op))
+  /\ (op_ok (e_decl s) op = true -> snd (evo_step s op) = false)
   /\ exists t', the_table (fst (evo_step s op)) = Some t'
        /\ forall x, In x (t_cols t) -> In x (t_cols t') -> cells_kept t t' x.
 Proof.
-  intros s op t (t0 & F & C & O & SA) Hok Ht. unfold the_table in Ht. rewrite F in Ht. inversion Ht; subst t0. clear Ht.
+  intros s op t W Ht. pose proof W as (t0 & F & C & O & SA).
+  unfold the_table in Ht. rewrite F in Ht. inversion Ht; subst t0. clear Ht.
   assert (TE : table_exists (e_db s) (table_of (e_decl s)) = true) by (unfold table_exists; rewrite F; reflexivity).
   destruct op as [c|n]; unfold evo_step.
   - (* addColumn *)
-    cbn [op_ok] in Hok. rewrite F, TE. cbn [andb].
-    rewrite (add_ok_mono c _ Hok). cbn [fst snd].
-    set (f := fun t1 : table => {| t_name := table_of (e_decl s);
-                                   t_cols := t_cols t1 ++ [dbname_of (d_style (e_decl s)) c];
-                                   t_rows := map (fun r => r ++ [znull]) (t_rows t1) |}).
-    assert (F' : find_table (map_table (e_db s) (table_of (e_decl s)) f) (table_of (e_decl s)) = Some (f t)).
-    { unfold map_table. apply find_map_table; [|exact F].
-      intros x E. apply str_eqb_eq in E. cbn. congruence. }
-    split; [reflexivity|]. split.
-    + exists (f t). cbn [e_decl e_db db_tables]. rewrite table_of_set_cols. split; [exact F'|]. split.
-      * cbn [f t_cols]. rewrite C, class_cols_set_cols, map_app. reflexivity.
-      * split.
-        -- rewrite table_exists_alt in O |- *. cbn [db_tables]. unfold map_table.
-           rewrite exists_map_table; [exact O|]. intros x E. apply str_eqb_eq in E. cbn. congruence.
-        -- unfold sqlite_accepts in *. cbn [set_cols d_cols]. rewrite forallb_app, SA. cbn [forallb].
-           unfold sqlite_add_ok in Hok. apply andb_true_iff in Hok. destruct Hok as [Hok H4].
-           apply andb_true_iff in Hok. destruct Hok as [_ H3]. rewrite H3, H4. reflexivity.
-    + exists (f t). unfold the_table. cbn [e_decl e_db db_tables]. rewrite table_of_set_cols.
-      split; [exact F'|]. intros x Hx _. unfold cells_kept. cbn [f t_cols t_rows]. rewrite map_map.
-      apply map_ext. intro r. apply cell_add. exact Hx.
+    cbn [op_ok]. rewrite F, TE. cbn [andb].
+    destruct (sqlite_add_ok match t_rows t with [] => true | _ :: _ => false end c) eqn:OK.
+    + cbn [fst snd].
+      set (f := fun t1 : table => {| t_name := table_of (e_decl s);
+                                     t_cols := t_cols t1 ++ [dbname_of (d_style (e_decl s)) c];
+                                     t_rows := map (fun r => r ++ [znull]) (t_rows t1) |}).
+      assert (F' : find_table (map_table (e_db s) (table_of (e_decl s)) f) (table_of (e_decl s)) = Some (f t)).
+      { unfold map_table. apply find_map_table; [|exact F].
+        intros x E. apply str_eqb_eq in E. cbn. congruence. }
+      split; [|split; [reflexivity|]].
+      * exists (f t). cbn [e_decl e_db db_tables]. rewrite table_of_set_cols. split; [exact F'|]. split.
+        -- cbn [f t_cols]. rewrite C, class_cols_set_cols, map_app. reflexivity.
+        -- split.
+           ++ rewrite table_exists_alt in O |- *. cbn [db_tables]. unfold map_table.
+              rewrite exists_map_table; [exact O|]. intros x E. apply str_eqb_eq in E. cbn. congruence.
+           ++ unfold sqlite_accepts in *. cbn [set_cols d_cols]. rewrite forallb_app, SA. cbn [forallb].
+              rewrite (add_ok_type _ _ OK). reflexivity.
+      * exists (f t). unfold the_table. cbn [e_decl e_db db_tables]. rewrite table_of_set_cols.
+        split; [exact F'|]. intros x Hx _. unfold cells_kept. cbn [f t_cols t_rows]. rewrite map_map.
+        apply map_ext. intro r. apply cell_add. exact Hx.
+    + (* the engine refuses: nothing changes *)
+      cbn [fst snd]. split; [exact W|]. split.
+      * intro Hok. rewrite (add_ok_mono c _ Hok) in OK. discriminate.
+      * exists t. unfold the_table. split; [exact F|]. intros. reflexivity.
   - (* delColumn *)
+    cbn [op_ok].
+    destruct (existsb (fun c => str_eqb (final_name c) n) (d_cols (e_decl s))) eqn:Known; cbn [negb].
+    2:{ (* unknown column: refused before anything changes *)
+        cbn [fst snd]. split; [exact W|]. split; [discriminate|].
+        exists t. unfold the_table. split; [exact F|]. intros. reflexivity. }
     rewrite F. rewrite O.
     set (dc' := set_cols (e_decl s) (filter (fun c => negb (str_eqb (final_name c) n)) (d_cols (e_decl s)))).
     assert (Sub : forallb (fun c => mem_str c (t_cols t)) (class_cols dc') = true).
@@ -295,7 +308,7 @@ Proof.
     assert (F' : find_table (map_table (e_db s) (table_of (e_decl s)) f) (table_of (e_decl s)) = Some (f t)).
     { unfold map_table. apply find_map_table; [|exact F].
       intros x E. apply str_eqb_eq in E. cbn. congruence. }
-    split; [reflexivity|]. split.
+    split; [|split; [reflexivity|]].
     + exists (f t). cbn [e_decl e_db db_tables]. change (table_of dc') with (table_of (e_decl s)).
       split; [exact F'|]. split; [reflexivity|]. split; [|exact SA'].
       rewrite table_exists_alt in O |- *. cbn [db_tables]. unfold map_table.
@@ -312,26 +325,29 @@ Fixpoint kept (x : str) (s : evo_state) (ops : list evo_op) : Prop :=
   | op :: r => In x (class_cols (e_decl (fst (evo_step s op)))) /\ kept x (fst (evo_step s op)) r
   end.
 
-Theorem evo_run_ok : forall ops s t, evo_wf s -> forallb op_ok ops = true -> the_table s = Some t ->
-  snd (evo_run s ops) = false
-  /\ evo_wf (fst (evo_run s ops))
+(* any sequence of addColumn / delColumn, refused ones included *)
+Theorem evo_run_ok : forall ops s t, evo_wf s -> the_table s = Some t ->
+  evo_wf (fst (evo_run s ops))
+  /\ (ops_ok s ops = true -> snd (evo_run s ops) = false)
   /\ exists t', the_table (fst (evo_run s ops)) = Some t'
        /\ t_cols t' = class_cols (e_decl (fst (evo_run s ops)))
        /\ forall x, In x (t_cols t) -> kept x s ops -> cells_kept t t' x.
 Proof.
-  induction ops as [|op ops IH]; intros s t W Hok Ht.
-  - cbn. split; [reflexivity|]. split; [exact W|]. exists t. split; [exact Ht|].
+  induction ops as [|op ops IH]; intros s t W Ht.
+  - cbn. split; [exact W|]. split; [reflexivity|]. exists t. split; [exact Ht|].
     destruct W as (t0 & F & C & _ & _). unfold the_table in Ht. rewrite F in Ht. inversion Ht; subst.
     split; [exact C|]. intros. reflexivity.
-  - cbn [forallb] in Hok. apply andb_true_iff in Hok. destruct Hok as [Hop Hops].
-    destruct (evo_step_ok s op t W Hop Ht) as (E1 & W1 & t1 & T1 & K1).
-    cbn [evo_run]. destruct (evo_step s op) as [s1 e1] eqn:ES. cbn [fst snd] in *.
-    destruct (IH s1 t1 W1 Hops T1) as (E2 & W2 & t2 & T2 & C2 & K2).
-    destruct (evo_run s1 ops) as [s2 e2] eqn:ER. cbn [fst snd] in *. subst e1 e2.
-    split; [reflexivity|]. split; [exact W2|]. exists t2. split; [exact T2|]. split; [exact C2|].
-    cbn [kept]. rewrite ES. cbn [fst]. intros x Hx [Hk1 Hk2]. unfold cells_kept in *.
-    assert (Hx1 : In x (t_cols t1)).
-    { destruct W1 as (t1' & F1 & C1 & _ & _). unfold the_table in T1. rewrite F1 in T1. inversion T1; subst.
-      rewrite C1. exact Hk1. }
-    rewrite (K2 x Hx1 Hk2). apply K1; assumption.
+  - destruct (evo_step_ok s op t W Ht) as (W1 & E1 & t1 & T1 & K1).
+    cbn [evo_run kept ops_ok]. destruct (evo_step s op) as [s1 e1] eqn:ES. cbn [fst snd] in *.
+    destruct (IH s1 t1 W1 T1) as (W2 & E2 & t2 & T2 & C2 & K2).
+    destruct (evo_run s1 ops) as [s2 e2] eqn:ER. cbn [fst snd] in *.
+    split; [exact W2|]. split.
+    + intro Hok. apply andb_true_iff in Hok. destruct Hok as [Hop Hops].
+      rewrite (E1 Hop), (E2 Hops). reflexivity.
+    + exists t2. split; [exact T2|]. split; [exact C2|].
+      intros x Hx [Hk1 Hk2]. unfold cells_kept in *.
+      assert (Hx1 : In x (t_cols t1)).
+      { destruct W1 as (t1' & F1 & C1 & _ & _). unfold the_table in T1. rewrite F1 in T1. inversion T1; subst.
+        rewrite C1. exact Hk1. }
+      rewrite (K2 x Hx1 Hk2). apply K1; assumption.
 Qed.
